@@ -66,7 +66,7 @@ def env(set_id=None, route=None):
     cw = (1, 2, 4, 8)[(set_id + (0 if route == "ctor" else 2)) % 4]
     for t in range(N_TC):
         for sub in range(1, 9):
-            steps = (1, 2) if sub in (5, 6) else (None,)
+            steps = (1, (1 << (8 * sw - 1)) | 2) if sub in (5, 6) else (None,)          # the second step number has the top bit of its field set
             for st in steps:
                 step = None if st is None else PacketFieldEnum.with_byte_size(sw, st)
                 notice = FailureNotice(PacketFieldEnum.with_byte_size(cw, 7), b"") if sub % 2 == 0 else None
